@@ -80,6 +80,9 @@ def c07_case(draw):
     for i in range(draw(st.sampled_from([4, 4, 8]))):
         configs.append({"format": draw(st.sampled_from(["graphical", "bare"])) if i > 1 else ["graphical", "bare"][i],
                         "W": draw(st.lists(st.sampled_from(W_NAMES), max_size=4))})
+    # the identifiers of the planted faults, switched off by name in the first two configurations (an error is not a warning)
+    for conf in configs[:2]:
+        conf["W"] = conf["W"] + sorted({"no-" + mutate.BY_KIND[k].ident for k in planted})[:3]
     io_fault = draw(st.sampled_from([False] * 14 + [True]))
     if draw(st.sampled_from([False, False, True])):
         # no newline at the end of the last file (editors differ); sometimes a default-enabled warning sits on that last line
